@@ -3,6 +3,39 @@
 import json, os
 V = "/verif"
 CHECKS = {
+ "C01": dict(cat="exploration",
+   text="differential testing against an independent reference evaluator: generated (dataset, SELECT text) pairs over default+named graphs (empty graphs, same triple in several graphs) and a recursive query grammar (BGP, nested groups, UNION, GRAPH <iri>/?g, group-scoped FILTER, BIND, VALUES/UNDEF, sub-SELECT with modifiers, FROM/FROM NAMED, GROUP BY aggregates, DISTINCT/ORDER BY/LIMIT) run through execute_sparql_query (and the legacy volcano entry point); rows compared as multisets, sortedness under ORDER BY, legal-cut predicate under LIMIT",
+   note="trusted: the nested-loop SPARQL 1.1 algebra evaluator in harness/src/sparql.rs (written from the spec, no engine code) and the supported-fragment restrictions a-f of DESIGN C01 enforced by construction; SELECT * column order = first syntactic appearance; sizes bounded (<=40 default triples, depth <=3)",
+   tech="property-based differential testing (proptest): grammar-based query generation + reference SPARQL algebra oracle"),
+ "C02": dict(cat="exploration",
+   text="metamorphic + differential testing of the planning pipeline driven through its public pieces: per generated query the baseline (source order, fresh stats, chosen plan, 1 thread) must equal the reference evaluator, and every variant - permuted BGPs, empty/stale/adversarial statistics, every assignment of bind/hash/nested-loop to the join nodes of the chosen plan (all 3^j for j<=3, else sampled), scan-strategy flips, rayon pools of 2/3/8/16 threads, and a stale cached-statistics end-to-end scenario - must equal the baseline",
+   note="trusted: reference evaluator of C01; fragment restriction (a) (the condition under which the three join algorithms are specified to agree); thread schedules only perturbed through pool sizes; join-node rewriting assumes the optimizer considers all three algorithms for every join (it does: find_best_plan_recursive)",
+   tech="metamorphic property-based testing (proptest) with plan rewriting + reference SPARQL algebra oracle"),
+ "C03": dict(cat="exploration",
+   text="model-based histories: generated initial dataset followed by 1-14 (quick) / 1-25 (thorough) update requests of the six supported forms (self-referential templates, GRAPH ?g templates, blank-node templates, literal-in-subject/predicate/graph instantiations, unbound template variables) interleaved with requests that must be rejected; after every step the complete lexical dataset and graph catalog must equal reference SPARQL Update semantics (WHERE once on the pre-state, delete-then-insert, per-solution fresh blank nodes up to injective renaming), UpdateSummary must equal the number of changed quads, a rejected request changes nothing",
+   note="trusted: reference step semantics in harness/src/update.rs on top of the C01 evaluator; term kinds lexically decidable in the generated universe; catalog life-cycle as in C04",
+   tech="model-based property testing (proptest) of update histories against a reference SPARQL Update model"),
+ "C05": dict(cat="exploration",
+   text="generated Datalog programs over triples (1-4 premises, constants, repeated variables, variable predicates, multi-conclusion, numeric filters, recursion, one stratum of safe negation) x 4 strategies (naive, semi-naive, parallel, Boolean-provenance) x 2 insertion orders; store == facts + least model (both directions), returned vector == new facts without duplicates, second run derives nothing, unsafe negated rules rejected",
+   note="trusted: independent naive T_P least-fixpoint oracle (harness/src/oracle_datalog.rs, unit-tested); numeric/identity filter reading (ambiguous cases skipped and counted); restricted negation class, negation only on the provenance strategy; open findings C05-F1..F3 (parallel strategy) excluded only through sandwich-guarded signatures",
+   tech="property-based differential testing (proptest) against a least-fixpoint oracle"),
+ "C06": dict(cat="exploration",
+   text="generated programs (recursive, shared evidence, cycles, negation class) with 1-8 (thorough: up to 12) uncertain input facts; exhaustive enumeration of all 2^n worlds gives the possible-worlds probability; DnfWmc and Sdd modes must equal it within 1e-9, MinMax must equal the widest-path value, Boolean must equal derivability, every fact of positive probability must be present, both insertion orders agree",
+   note="trusted: world-enumeration oracle (bitset form cross-checked against explicit enumeration for n<=8), f64 arithmetic; AddMult and TopK are approximations by their own documentation and not asserted",
+   tech="property-based testing (proptest) against exhaustive possible-worlds enumeration"),
+ "C07": dict(cat="fault_enumeration",
+   text="truth-table oracle: all 256x256x2 operand pairs over 3 variables x 2 entry points exhaustively (x 6 variable-introduction orders in thorough); generated operation histories over <=8 variables (apply/negate/exactly_one/literal, variables introduced at any time, budgeted twins) checked for exactness, canonicity both ways, WMC and gradient sums; for a chosen budgeted operation every deadline checkpoint k and every node budget is enumerated on a fresh manager, the history continues after the Err and everything is re-checked",
+   note="trusted: bit-level Boolean-function oracle sharing nothing with sdd.rs; group WMC compared only on h AND exactly_one(G) for all registered groups; same result = same handle on the same manager + same canonical structure on the twin manager; <=8 variables, <=80 operations, one interrupted operation per history",
+   tech="model-based property testing (proptest) + bounded exhaustive enumeration + exhaustive interruption-point enumeration through the injectable budget callback"),
+ "C17": dict(cat="exploration",
+   text="generated and mutated request strings (SELECTs, all six update forms, legacy aliases, RULE/REGISTER texts, garbage; multi-byte insertion, delimiter insertion, deletion, token duplication, truncation) x generated datasets x every string entry point incl. HTTP adapters; lexical snapshot (quads + catalog) unchanged around every query-path call and every Err, Err for everything the parser rejects and for update syntax on the query path, Ok for well-formed SELECTs, no panic; plus an exhaustive sweep of every char-boundary offset of 20 corpus requests x 6 multi-byte characters",
+   note="trusted: parse_combined_query as the classifier of what is an update / malformed; snapshot through all_quads + named_graphs; TRAIN/ML execution requests are not generated",
+   tech="property-based testing with string mutation (proptest) + exhaustive offset sweep; snapshot-equality oracle"),
+ "C19": dict(cat="exploration",
+   text="generated fact sets (3-9 facts) with 1-3 premise-only constraints and goals with 0-2 variables; oracle enumerates all 2^n subsets, takes the subset-maximal consistent ones and expects exactly the goal instances in every one of them; each case is run 10 times on freshly built reasoners (fresh hash seeds) and every run must equal the oracle; repair-aware materialisation must end in a store without constraint match",
+   note="trusted: consistency = no conjunctive match of any constraint (harness matcher); constraint filters/negation outside the domain; n<=9",
+   tech="property-based testing (proptest) against exhaustive subset enumeration, repeated runs for order dependence"),
+
  "C09": dict(cat="exploration",
    text="bounded-exhaustive core (every in-order stream of <=6 (quick) / <=8 (thorough) events with gaps from {0,1,2,3,7,20} and first ts in {0,1,s,s+1} for all width, slide in 1..=5) plus proptest-generated streams (dense/bursty/sparse gaps, width/slide up to 1000, up to 300 events) fed into CSPARQLWindow<u32> in the engine builder's configuration; an independent reference model computes per firing the set of aligned closes that explain the reported content; content, trigger, monotone-interval and density (each closing interval exactly once) clauses are checked on it",
    note="trusted: closed-form feasible-close computation (self-checked against literal enumeration on all small cases); an interval is identified only by its content so the verdict is existential over feasible closes; intervals closing at or before the first event are optional; flush() excluded; known finding C09-F1 excluded only through its own signature",
